@@ -74,7 +74,36 @@ pub fn check_xor(ctx: &mut Ctx, a: &RefAddr, tid: &[u8; 12], through_message: bo
             repeated.push((false, c.addr(t2)));
             repeated.push((false, d.addr(t2)));
         }
-        let msg_trip = if through_message {
+        // the way a server's answer takes to the wire: the response handed to a (long-lived, per
+        // thread) agent, and what that agent gives the transport read back under the same id
+        let agent_trip = if through_message && !cfg!(miri) {
+            AGENT.with(|cell| {
+                let mut slot = cell.borrow_mut();
+                let (agent, base, n) = slot.get_or_insert_with(|| {
+                    (stun_proto::agent::StunAgent::builder(stun_types::TransportType::Udp, "10.9.8.7:3478".parse().unwrap()).build(), std::time::Instant::now(), 0u64)
+                });
+                *n += 1;
+                let mut b = Message::builder(MessageType::from_class_method(if *n % 5 == 0 { MessageClass::Error } else { MessageClass::Success }, 1), t);
+                b.add_attribute(&x).ok();
+                if *n % 3 == 0 {
+                    let _ = b.add_fingerprint();
+                }
+                let now = *base + std::time::Duration::from_millis(*n * 7);
+                match agent.send(b, std_addr, now) {
+                    Ok(tr) => {
+                        let to_ok = tr.to == std_addr;
+                        let data = tr.data().to_vec();
+                        Message::from_bytes(&data).ok().and_then(|m| m.attribute::<XorMappedAddress>().ok().map(|d| d.addr(m.transaction_id()))).filter(|_| to_ok)
+                    }
+                    Err(_) => None,
+                }
+            })
+        } else {
+            Some(std_addr)
+        };
+        let msg_trip = if agent_trip != Some(std_addr) {
+            None
+        } else if through_message {
             let mut b = Message::builder(MessageType::from_class_method(MessageClass::Success, 1), t);
             // other attributes in front of it, among them types that share low bits with 0x0020 (the
             // draft code point 0x8020, 0x0060, 0x0120 ...): they are other attributes
@@ -165,6 +194,10 @@ pub fn check_xor(ctx: &mut Ctx, a: &RefAddr, tid: &[u8; 12], through_message: bo
             }
         }
     }
+}
+
+thread_local! {
+    static AGENT: std::cell::RefCell<Option<(stun_proto::agent::StunAgent, std::time::Instant, u64)>> = const { std::cell::RefCell::new(None) };
 }
 
 /// The public helper types the attribute is made of (other crates build XOR-PEER-ADDRESS,
